@@ -32,6 +32,7 @@ func runC08(c *an.Ctx) {
 	pendingMutationRule(c, "R08h")
 	r08i(c)
 	r08j(c)
+	whoMayCancel(c, "R08k")
 }
 
 func r08a(c *an.Ctx) {
@@ -871,4 +872,28 @@ func r08j(c *an.Ctx) {
 	sort.Strings(bad)
 	c.Ob("(*core/workflow/callable.Call).Await|returns-received-outcome", fn.Pos(), len(bad) == 0 && n > 0,
 		"Await can return a value that was not received from the call's await channel (at %v): the transition goes on to the next moment while the hook call is still running, and its real outcome is never collected", bad)
+}
+
+// whoMayCancel (shared by C08 and C09): a pending hook call is cancelled only when its environment is torn down. A
+// cancelled call's await channel is closed, so a later Await on it answers nil: cancelling at any other moment (after
+// a failed transition, say) turns a critical hook failure that is still to be collected into a success.
+func whoMayCancel(c *an.Ctx, rule string) {
+	c.Rule(rule, "Call.Cancel is reached only from the teardown of the environment (through cancelCallsPendingAwait)", 2)
+	cancelAll := c.MustFn("core/environment", "Manager.cancelCallsPendingAwait")
+	td := c.MustFn("core/environment", "Manager.TeardownEnvironment")
+	if cancelAll == nil || td == nil {
+		return
+	}
+	for _, s := range c.SitesOf(func(n string) bool { return n == "(*core/workflow/callable.Call).Cancel" }) {
+		c.Subject()
+		from := an.OutermostParent(s.Fn)
+		c.Ob("call-Cancel|"+c.RelName(from), s.Call.Pos(), from == cancelAll,
+			"Call.Cancel is called from %s: only the teardown's cancellation of what is still pending may cancel a hook call", c.RelName(from))
+	}
+	for _, s := range c.SitesOfFn(cancelAll) {
+		c.Subject()
+		from := an.OutermostParent(s.Fn)
+		c.Ob("call-cancelCallsPendingAwait|"+c.RelName(from), s.Call.Pos(), from == td,
+			"the pending hook calls of an environment are cancelled from %s, not only at teardown: a call started earlier and awaited later (another moment, another transition) is then answered with nil at its await point although it failed or is still running", c.RelName(from))
+	}
 }
